@@ -56,6 +56,15 @@ func init() {
 				}
 			}
 		}
+		if os.Getenv("DBGBIN") != "" {
+			for _, b := range f.Blocks {
+				for _, in := range b.Instrs {
+					if bo, ok := in.(*ssa.BinOp); ok && isCmp(bo.Op) {
+						fmt.Printf("  cmp %s: %s %s %s\n", p.pos(bo.Pos()), descVal(bo.X), bo.Op, descVal(bo.Y))
+					}
+				}
+			}
+		}
 		var as []Assume
 		if len(parts) > 3 && parts[3] != "" {
 			v := latFalse
